@@ -1,5 +1,6 @@
 //! verif-native: native companion of the solver-based checks (DSE explorer, witness replay).
 mod dse;
+mod eval;
 
 use std::io::Read;
 
@@ -22,6 +23,7 @@ fn main() {
     let rest = &args[2..];
     let code = match args[1].as_str() {
         "dse" => dse::main(rest),
+        "eval" => eval::main(),
         "replay-diff" => {
             println!("{}", dse::replay(&read_json(&rest[0])));
             0
